@@ -103,6 +103,9 @@ func runC09(c *Ctx) {
 	ruleKeyWidth(c, p, "C09.keywidth")
 	ruleInferByName(c, p, "C09.infer-name")
 	ruleAutoKeepsCompatible(c, p, "C09.auto-keeps")
+	rulePoolSingleDo(c, p, "C09.no-replay")
+	ruleForwardEvery(c, p, "C09.forward-every")
+	rulePrepareMethodSet(c, p, "C09.prepare-methodset")
 	// what a round's block carries is what the column encoders of the build in use write
 	for _, cf := range c.Configs() {
 		if pc := c.Prog(cf); pc != nil {
